@@ -55,7 +55,7 @@ def gen_case(rng):
                 pl["__mixed__"] = rng.choice(["top-int", "nested-int", "none-key"])  # expanded by the stand-in (JSON cannot carry non-string keys)
             logs.append([name, pl])
         deltas = [["node", f"n:{a}:{rng.choice('abc')}", "weight", rng.choice([0.1, -0.2, 0.3]), 1] for _ in range(rng.randint(0, 4))]
-        specs[a] = {"logs": logs, "deltas": deltas, "utter": f"utter of {a} " + rng.choice(["", "ünï", "x" * 50])}
+        specs[a] = {"logs": logs, "deltas": deltas, "progress": rng.choice([0, 0, 2, 5]), "utter": f"utter of {a} " + rng.choice(["", "ünï", "x" * 50])}
     sizes = sorted({sum(len(str(k)) + len(str(v)) for k, v in p.items()) + 2 for s in specs.values() for _, p in s["logs"]} or {30})
     limit = rng.choice([None, 1, 2, sizes[0] - 1, sizes[0], sizes[0] + 1, 150, 4096, sizes[-1], sum(sizes)])
     workers = rng.choice([2, 3, 4, 8])
@@ -92,6 +92,14 @@ def make_standin(case, trace):
             elif mixed == "none-key":
                 pl[None] = 0
             core._append_jsonl(name, pl)
+        if spec.get("progress"):
+            # one record object updated in place and logged after every step (a progress line): each logged line must
+            # carry the value it had when it was logged
+            prog = {"turn": getattr(ctx, "turn_id", 0), "agent": aid, "step": -1, "acc": []}
+            for i_ in range(spec["progress"]):
+                prog["step"] = i_
+                prog["acc"].append(i_)
+                core._append_jsonl("progress.jsonl", prog)
         deltas = [ProposedDelta(d[0], d[1], d[2], float(d[3]), op_idx=d[4], idx=i) for i, d in enumerate(spec["deltas"])]
         t4 = NS(approved_deltas=deltas, rejected_ops=[], reasons=[], metrics={})
         if dry:
